@@ -35,6 +35,7 @@ def run(ck, F, tier):
     ck.rule("B2", "neutral depuncturing")
     ck.rule("B3", "noise / demodulator wiring and the Eb/N0 -> sigma formula; rate after puncturing")
     ck.rule("B4", "channel shape")
+    ck.rule("B6", "modulator/demodulator agreement (the rules of C14: constellation, bit partition of every LLR, bit order, scales, max*)")
     ck.rule("B5", "reported sizes")
 
     # ---- B1 ---------------------------------------------------------------------------------------
@@ -249,6 +250,10 @@ def run(ck, F, tier):
         e.bind(bb.params[0], var("self"), env)
         v = e.eval(bb.value, env)
         ck.inst("B5", "reported:" + m_, v == var("self." + m_) and m_ in fields, bb.span, "Ber::%s() returns the field `%s` computed in new()" % (m_, m_))
+    # B6: "modulation and its inverse cancel" needs the demodulator's hypothesis sets to be the modulator's constellation points
+    from ..report import RuleAlias
+    from . import c14
+    c14.run(RuleAlias(ck, "B6"), F, "quick")
     if tier == "thorough":
         from ..witness import check_witnesses
         check_witnesses(ck, "B4", ["W2", "W3"])
